@@ -66,7 +66,7 @@ int run_single_test(TestSuite *suite, const char *name, TestReporter *reporter)
         die("could not set up the channel for test results\n");
     }
     run_named_test(suite, name, reporter);
-    success = (reporter->total_failures == 0);
+    success = (reporter->total_failures == 0) && (reporter->total_exceptions == 0);
     return success ? EXIT_SUCCESS : EXIT_FAILURE;
 }
 
